@@ -62,7 +62,19 @@ def programs():
   def c_final(shared, st):
     return {'tot': st['tot'].astype(jnp.float32) + shared['w'][0], 'steps': st['steps']}
 
-  return {'A': (a_init, a_step, a_final, True), 'B': (b_init, b_step, None, False), 'C': (c_init, c_step, c_final, False)}
+  # PD: narrow-dtype state (uint8 histogram that wraps modulo 256, float16 accumulator) fed by Python scalars that
+  #     appear as leaves of the client input and of every batch (weakly typed: they must not widen the state).
+  def d_init(shared, ci):
+    return {'hist': jnp.zeros((3,), jnp.uint8) + ci['start'], 'acc': jnp.zeros((), jnp.float16)}
+
+  def d_step(st, b):
+    return {'hist': st['hist'] * b['mul'] + jnp.sum(b['__mask__']).astype(jnp.uint8), 'acc': st['acc'] + b['inc'] * 0.5}
+
+  def d_final(shared, st):
+    return {'hist': st['hist'], 'acc': st['acc'], 'n': shared['b']}
+
+  return {'A': (a_init, a_step, a_final, True), 'B': (b_init, b_step, None, False), 'C': (c_init, c_step, c_final, False),
+          'D': (d_init, d_step, d_final, False)}
 
 
 # client ids are arbitrary hashables: ints, bytes, str (also empty), tuples and None all occur
@@ -78,8 +90,8 @@ def make_inputs(profile, seed, typed_keys=False):
     # batches carry the padding-mask feature; clients with MORE batches hold FEWER real rows per batch, so ordering
     # clients by number of real examples differs from ordering them by number of batches
     batches = [{'x': jnp.asarray([1.0 + i, 2.0 + j + 0.5 * (seed % 2)]),
-                '__mask__': jnp.asarray([True, k < 2])} for j in range(k)]
-    ci = {'scale': jnp.asarray(1.0 + i), 'key': jax.random.PRNGKey(10 + i)}
+                '__mask__': jnp.asarray([True, k < 2]), 'mul': 7 + j, 'inc': 1.5 + i} for j in range(k)]   # mul/inc: Python scalars
+    ci = {'scale': jnp.asarray(1.0 + i), 'key': jax.random.PRNGKey(10 + i), 'start': 200 + 20 * i}
     if typed_keys:
       ci['key'] = jax.random.key(10 + i)   # new-style typed key with the same key data
     clients.append((CLIENT_IDS[i], batches, ci))
@@ -156,6 +168,7 @@ def fold(case):
     shared, clients = make_inputs(profile, case.get('seed', 0), bool(case.get('typed_keys')))
     expect = sequential(prog, shared, clients)
     snaps = [_np(l, True) for l in leaves((shared, [(b, ci) for _, b, ci in clients]))]
+    nbatches = [len(b) for _, b, _ in clients]
     f = backend_fn(pname, backend)
     it = iter(clients) if case.get('iter') else clients
     got = list(f(shared, it))
@@ -165,18 +178,18 @@ def fold(case):
     for g in got:
       cid = g[0]
       eo, er = expect[cid]
-      require(jax.tree_util.tree_structure(g[1]) == jax.tree_util.tree_structure(eo), 'client %r: output structure' % cid,
+      require(jax.tree_util.tree_structure(g[1]) == jax.tree_util.tree_structure(eo), 'client %r: output structure' % (cid,),
               case=nc)
       for a, b in zip(leaves(g[1]), leaves(eo)):
         a, b = _np(a), _np(b)
-        require(a.shape == b.shape and a.dtype == b.dtype, 'client %r: output leaf shape/dtype' % cid,
+        require(a.shape == b.shape and a.dtype == b.dtype, 'client %r: output leaf shape/dtype' % (cid,),
                 [list(b.shape), str(b.dtype)], [list(a.shape), str(a.dtype)], case=nc)
         require(bool(np.allclose(a.astype(np.float64), b.astype(np.float64), rtol=1e-5, atol=1e-6)),
-                'client %r: output differs from final(shared, fold(step, init(...), batches))' % cid, b.tolist(),
+                'client %r: output differs from final(shared, fold(step, init(...), batches))' % (cid,), b.tolist(),
                 a.tolist(), case=nc)
       if with_res:
         require(len(g) == 3, 'no step results returned', case=nc)
-        require(len(g[2]) == len(er), 'client %r: number of step results != number of real batches' % cid, len(er),
+        require(len(g[2]) == len(er), 'client %r: number of step results != number of real batches' % (cid,), len(er),
                 len(g[2]), case=nc)
         for j, (ra, rb) in enumerate(zip(g[2], er)):
           for a, b in zip(leaves(ra), leaves(rb)):
@@ -185,6 +198,8 @@ def fold(case):
                     case=nc)
       else:
         require(len(g) == 2, 'unexpected step results', case=nc)
+    require([len(b) for _, b, _ in clients] == nbatches, 'the caller\'s batch lists changed length during the call',
+            nbatches, [len(b) for _, b, _ in clients], case=nc)
     now = leaves((shared, [(b, ci) for _, b, ci in clients]))
     for l, s in zip(now, snaps):
       if isinstance(l, jax.Array):
@@ -204,7 +219,7 @@ def fold(case):
     for cid, (eo, er) in expect2.items():
       for a, b in zip(leaves(got2[cid][1]), leaves(eo)):
         require(bool(np.allclose(_np(a).astype(np.float64), _np(b).astype(np.float64), rtol=1e-5, atol=1e-6)),
-                'client %r: a second call with an updated shared input returned results for a stale shared input' % cid,
+                'client %r: a second call with an updated shared input returned results for a stale shared input' % (cid,),
                 _np(b).tolist(), _np(a).tolist(), case=nc)
     # the results of the FIRST call are still what they were (looked at again after the second call on the same object)
     for g in got:
@@ -393,7 +408,7 @@ def plan(ctx):
   n_max = 4 if th else 3
   devs = [1, 2, 3, 4, 8] if th else [1, 3]
   backends = ['jit', 'debug'] + ['pmap%d' % d for d in devs]
-  ctx.rule = ('fold: 3 client programs (one with a dtype-promoting state; client ids int/bytes/None/tuple/str) x every batch-count profile in {0,1,2}^n, n<=%d x backends %s (list and one-pass '
+  ctx.rule = ('fold: 4 client programs (one with a dtype-promoting state, one with uint8/float16 state fed by Python scalars; client ids int/bytes/None/tuple/str) x every batch-count profile in {0,1,2}^n, n<=%d x backends %s (list and one-pass '
               'iterator inputs); threads: every pair of backend-selection programs (<=2 nodes vs <=1 node; thorough <=2 '
               'vs <=2) under op-level schedules (all interleavings for 1-node pairs, else <=2 (thorough 3) preemptions), 3-thread triples, and line-level schedules of for_each_client.py '
               'with <=%d preemptions; distinct = (program, profile, backend) / (thread programs, schedule); non-trivial = '
@@ -404,7 +419,7 @@ def plan(ctx):
   fc = []
   for n in range(0, n_max + 1):
     for profile in itertools.product((0, 1, 2), repeat=n):
-      for prog in ('A', 'B', 'C'):
+      for prog in ('A', 'B', 'C', 'D'):
         fc.append({'prog': prog, 'profile': list(profile), 'backends': backends, 'seed': ctx.seed,
                    'iter': sum(profile) % 2 == 1})
   for profile in ([1, 0, 2], [2, 2], [0]):
